@@ -19,6 +19,8 @@ PROPS = {
     "C10": dict(mix=[("faults", 1.0, {})], mc=["MC_msgs"]),
     "C11": dict(mix=[("plain", 0.5, {"mode": "any"}), ("plain", 0.5, {})], mc=["MC_base"]),
     "C26": dict(mix=[("plain", 0.6, {}), ("faults", 0.4, {})], mc=["MC_base"]),
+    "C19": dict(mix=[("restart", 1.0, {})], mc=["MC_restart"]),
+    "C20": dict(mix=[("crash", 1.0, {})], mc=["MC_crash"]),
     "C31": dict(mix=[("plain", 1.0, {"features": {"sequential": "always"}})], mc=["MC_seq"]),
 }
 N_RUNS = {"quick": 48, "thorough": 1200}
